@@ -94,7 +94,13 @@ class Trainer:
             np.arange(len(weights)), weights, ess=self.TRIM_ESS, bins=self.TRIM_BINS
         )
 
-        if self.clustering and (iter_val % self.cluster_every == 0 or iter_val == 0):
+        # Refit on the clustering cadence, and also the first time the
+        # clusterer is needed: annealing can start at an iteration that is not
+        # a multiple of cluster_every, when the model has never been fitted.
+        never_fitted = self.clustering and self.clusterer.n_clusters_ == 0
+        refit = iter_val % self.cluster_every == 0 or iter_val == 0 or never_fitted
+
+        if self.clustering and refit:
             # Fit clustering model and mode statistics
             u = self.state.get_history("u", flat=True)[trim_idx]
             self.clusterer.fit(u, weights_trimmed)
@@ -102,9 +108,7 @@ class Trainer:
             mode_stats = ModeStatistics.from_particles(
                 u, weights_trimmed, labels, dof_fallback=self.DOF_FALLBACK
             )
-        elif self.clustering and not (
-            iter_val % self.cluster_every == 0 or iter_val == 0
-        ):
+        elif self.clustering and not refit:
             # Use previous clustering - return existing mode_stats
             # This requires the caller to keep track of previous mode_stats
             # For now, refit (inefficient but correct)
